@@ -452,17 +452,17 @@ class CRepHarness(_Base):
 
     CAP = 8         # a front of this size at these bounds means the enumeration does not stop
 
-    def __init__(self, N, M, mode="impacts", level="L2", keys=None, label=None):
+    def __init__(self, N, M, mode="impacts", level="L2", keys=None, label=None, shapes=None):
         ops.setup()
         self.N, self.M, self.mode, self.level = N, M, mode, level
         self.keys = keys or list(range(1, M + 1))
-        self.sb = ops.SymBase(N, M, 1)
+        self.sb = ops.SymBase(N, M, 1, shapes)
         self.vars = self.sb.vars
         A, B, QA, QB = self.sb.tables()
         self.QA, self.QB = QA[0], QB[0]
         self.spec = specs.BaseSpec(A, B)
         self.eta = [Z.Int("xeta%d" % i) for i in range(M)]
-        self.label = label or "RandomMinCRepPreOCF[%s] N=%d M=%d %s keys=%s" % (mode, N, M, level, self.keys)
+        self.label = label or "RandomMinCRepPreOCF[%s] N=%d M=%d %s keys=%s%s" % (mode, N, M, level, self.keys, (" shapes=" + ops.shape_name(shapes)) if shapes else "")
         self.reset()
 
     def run(self, eng):
